@@ -1267,3 +1267,29 @@ B("c04-diff-orientation", ["C04"], ["R32"],
 K("c08k-century-respelled",
   ("data", "    def century(self): return (abs(self._year) % 10000) // 100",
    "    def century(self): return abs(self._year) % 10000 // 100"))
+
+
+# ============================== independently written preserving refactorings
+# Behaviour-preserving refactorings written by fresh sub-agents (each checked
+# by the pinned tests and by an equivalence digest over hundreds of thousands
+# of calls); kept under /verif/refactors/.  Every check must stay silent.
+def _load_refactors():
+    import os as _os
+    root = _os.path.join(_os.path.dirname(_os.path.dirname(_os.path.dirname(
+        _os.path.abspath(__file__)))), "refactors")
+    if not _os.path.isdir(root):
+        return
+    for fn in sorted(_os.listdir(root)):
+        if not fn.endswith(".diff"):
+            continue
+        diff = open(_os.path.join(root, fn)).read()
+        note = ""
+        try:
+            note = open(_os.path.join(root, fn[:-5] + ".txt")).read()[:300]
+        except OSError:
+            pass
+        K("refactor-" + fn[:-5],
+          (lambda texts, _d=diff: _apply_unified_diff(texts, _d)), note=note)
+
+
+_load_refactors()
